@@ -5,6 +5,7 @@
   identity, and the demes record which populations were joined.
 -/
 import DemesVerif.Proofs.FromMsApplyFrame
+import DemesVerif.Proofs.FromMsFrag3Alg
 namespace Demes.Proofs.FromMs
 open Demes Demes.Ms Demes.Spec.MsSem Demes.Spec.C08
 open Demes.Proofs.RV (bind_ok pure_ok)
@@ -274,12 +275,13 @@ theorem contains_append_single (l : List Nat) (a b : Nat) :
     (l ++ [a]).contains b = (l.contains b || decide (b = a)) := by
   simp [List.contains_eq_mem, List.mem_append, eq_comm]
 
-/-- `-ej a k` that is not the join of the population a pending `-es` has just created -/
-theorem groupInv_join {T' : Q} {n0 : Nat} {s0 : BState} {allOps : List MOp}
+/-- `-ej a k` that is not the join of the population a pending `-es` has just created (`NJT`: no earlier
+move has the source of a later join as its target) -/
+theorem groupInv_join' {T' : Q} {n0 : Nat} {s0 : BState} {allOps : List MOp}
     {s s' : BState} {g g' : GState} {L L' : List (Nat × Row)} {done : List MOp} {pend : Option (Nat × Q)}
     {tq : Q} {a k : Nat} {rest : List Cmd} {d d' : BDeme}
     (h : GroupInv T' n0 s0 allOps s g L done pend (.join tq a k :: rest))
-    (hns : NSAT allOps)
+    (hns : NJT allOps)
     (hpa : ∀ i q, pend = some (i, q) → a ≠ s.numDemes)
     (ha1 : 1 ≤ a) (ha2 : a ≤ s.numDemes) (hk1 : 1 ≤ k) (hk2 : k ≤ s.numDemes) (hak : a ≠ k)
     (haj : s.joined.contains (a - 1) = false) (hkj : s.joined.contains (k - 1) = false)
@@ -316,9 +318,9 @@ theorem groupInv_join {T' : Q} {n0 : Nat} {s0 : BState} {allOps : List MOp}
     · intro e he
       obtain ⟨o, ho, rfl⟩ := List.mem_map.mp he
       have hne : o.2.1 ≠ a := by
-        unfold NSAT at hns
+        unfold NJT at hns
         rw [hall, List.pairwise_append] at hns
-        exact hns.2.2 o ho (a, k, 1) (List.mem_cons_self ..)
+        exact hns.2.2 o ho (a, k, 1) (List.mem_cons_self ..) rfl
       obtain ⟨_, b2, _⟩ := pos1 o ho
       show o.2.1 - 1 ≠ a - 1
       omega
@@ -424,6 +426,24 @@ theorem groupInv_join {T' : Q} {n0 : Nat} {s0 : BState} {allOps : List MOp}
       cases hc : s0.joined.contains (a - 1) with
       | false => rfl
       | true => rw [h.joinedMono _ hc] at haj; cases haj
+
+/-- `groupInv_join'` from `NSAT` -/
+theorem groupInv_join {T' : Q} {n0 : Nat} {s0 : BState} {allOps : List MOp}
+    {s s' : BState} {g g' : GState} {L L' : List (Nat × Row)} {done : List MOp} {pend : Option (Nat × Q)}
+    {tq : Q} {a k : Nat} {rest : List Cmd} {d d' : BDeme}
+    (h : GroupInv T' n0 s0 allOps s g L done pend (.join tq a k :: rest))
+    (hns : NSAT allOps)
+    (hpa : ∀ i q, pend = some (i, q) → a ≠ s.numDemes)
+    (ha1 : 1 ≤ a) (ha2 : a ≤ s.numDemes) (hk1 : 1 ≤ k) (hk2 : k ≤ s.numDemes) (hak : a ≠ k)
+    (haj : s.joined.contains (a - 1) = false) (hkj : s.joined.contains (k - 1) = false)
+    (hd : s.demes[a - 1]? = some d) (hdinf : d.startTime = .inf)
+    (hd' : d'.startTime = .fin T' ∧ bEndTime d' = bEndTime d)
+    (hde : s'.demes = s.demes.set (a - 1) d') (hnum : s'.numDemes = s.numDemes)
+    (hjo : s'.joined = s.joined ++ [a - 1]) (hpu : s'.pulses = s.pulses)
+    (hg' : g'.params = joinParams g.params (a - 1) (k - 1))
+    (hL : L' = L.map (fun (ir : Nat × Row) => (ir.1, (ir.2.set a 0).add k (ir.2.get a)))) :
+    GroupInv T' n0 s0 allOps s' g' L' (done ++ flushOp s.numDemes pend ++ [(a, k, 1)]) none rest :=
+  groupInv_join' h (njt_of_nsat hns) hpa ha1 ha2 hk1 hk2 hak haj hkj hd hdinf hd' hde hnum hjo hpu hg' hL
 
 /-- `-ej n k` right after the `-es i p` that created population `n`: an admixture -/
 theorem groupInv_admix {T' : Q} {n0 : Nat} {s0 : BState} {allOps : List MOp}
@@ -564,12 +584,12 @@ def FracOK : Cmd → Prop
   | _ => True
 
 /-- **one option of a time group** keeps the invariant -/
-theorem stepEvent_groupInv {N0 T T' : Q} {n0 : Nat} {s0 : BState} {allOps : List MOp}
+theorem stepEvent_groupInv' {N0 T T' : Q} {n0 : Nat} {s0 : BState} {allOps : List MOp}
     {s s' : BState} {g g' : GState} {σ σ' : St} {L L' : List (Nat × Row)} {ev : Event Num} {c : Cmd}
     {rest : List Cmd} {done : List MOp} {pend : Option (Nat × Q)}
     (hsim : SizeSim T s σ) (hc : cmdOf ev = some c)
     (hm : stepEvent N0 T' (s, g) ev = .ok (s', g')) (hs : Spec.MsSem.step N0 (σ, L) c = .ok (σ', L'))
-    (hns : NSAT allOps) (hp : FracOK c)
+    (hns : NJT allOps) (hp : FracOK c)
     (h : GroupInv T' n0 s0 allOps s g L done pend (c :: rest)) :
     ∃ done' pend', GroupInv T' n0 s0 allOps s' g' L' done' pend' rest := by
   have hlenD : s.demes.length = s.numDemes := by rw [hsim.len, hsim.num]
@@ -622,7 +642,7 @@ theorem stepEvent_groupInv {N0 T T' : Q} {n0 : Nat} {s0 : BState} {allOps : List
           refine ⟨_, _, groupInv_admix h (by omega) (by omega) (by omega) (by rw [hjdx]; exact r5)
             (by rw [hidx]; exact hd) hd'f (by rw [hidx]; exact hfr.1) hfr.2.1
             (by rw [hidx]; show _ ++ _ = _; rw [hfr.2.2.1]) hfr.2.2.2 (by rw [hidx, hjdx]) hL⟩
-        · refine ⟨_, _, groupInv_join h hns (fun i0 q0 hpe hin => hadm ⟨i0, q0, hpe, hin⟩)
+        · refine ⟨_, _, groupInv_join' h hns (fun i0 q0 hpe hin => hadm ⟨i0, q0, hpe, hin⟩)
             (by omega) (by omega) (by omega) (by omega) hij (by rw [hidx]; exact q5) (by rw [hjdx]; exact r5)
             (by rw [hidx]; exact hd) hdinf hd'f (by rw [hidx]; exact hfr.1) hfr.2.1
             (by rw [hidx]; show _ ++ _ = _; rw [hfr.2.2.1]) hfr.2.2.2 (by rw [hidx, hjdx]) hL⟩
@@ -634,5 +654,16 @@ theorem stepEvent_groupInv {N0 T T' : Q} {n0 : Nat} {s0 : BState} {allOps : List
       have e3 := step_nonmove hcm hs
       rw [e1, e3]
       exact ⟨done, pend, groupInv_nonmove hcm e2 f1 f2 f3 f4 h⟩
+
+/-- `stepEvent_groupInv'` from `NSAT` -/
+theorem stepEvent_groupInv {N0 T T' : Q} {n0 : Nat} {s0 : BState} {allOps : List MOp}
+    {s s' : BState} {g g' : GState} {σ σ' : St} {L L' : List (Nat × Row)} {ev : Event Num} {c : Cmd}
+    {rest : List Cmd} {done : List MOp} {pend : Option (Nat × Q)}
+    (hsim : SizeSim T s σ) (hc : cmdOf ev = some c)
+    (hm : stepEvent N0 T' (s, g) ev = .ok (s', g')) (hs : Spec.MsSem.step N0 (σ, L) c = .ok (σ', L'))
+    (hns : NSAT allOps) (hp : FracOK c)
+    (h : GroupInv T' n0 s0 allOps s g L done pend (c :: rest)) :
+    ∃ done' pend', GroupInv T' n0 s0 allOps s' g' L' done' pend' rest :=
+  stepEvent_groupInv' hsim hc hm hs (njt_of_nsat hns) hp h
 
 end Demes.Proofs.FromMs
